@@ -47,12 +47,41 @@ type clients struct {
 	csrs map[string][]byte // cache: key|variant|challenge -> DER
 	// a second RSA certificate nobody has the key for on the server: "encrypted to somebody else"
 	other *x509.Certificate
+	// certificates of other parties (the harness holds their keys) that a request may carry next
+	// to its signer certificate: o1, o2 (RSA), oe (EC)
+	extra map[string]*clientKey
 }
 
+// owner returns the key pair the harness holds for a certificate's public key, if any (by key,
+// not by certificate bytes: a bit flipped in an unsigned part of a carried certificate does not
+// change whose certificate it is).
+func (cl *clients) owner(crt *x509.Certificate) *clientKey {
+	same := func(k *clientKey) bool {
+		pub, ok := k.key.Public().(interface{ Equal(x crypto.PublicKey) bool })
+		return ok && pub.Equal(crt.PublicKey)
+	}
+	for _, n := range []string{"rsa2048", "rsa1024", "ec256", "rsa3072"} {
+		if k := cl.keys[n]; k != nil && same(k) {
+			return k
+		}
+	}
+	for _, n := range []string{"o1", "o2", "oe"} {
+		if k := cl.extra[n]; k != nil && same(k) {
+			return k
+		}
+	}
+	return nil
+}
+
+var serialCounter int64
+
+// selfSigned: every certificate gets its own serial number (PKCS#7 recipients are identified by
+// issuer and serial).
 func selfSigned(cn string, k crypto.Signer) (*x509.Certificate, error) {
+	serialCounter++
 	tmpl := &x509.Certificate{
 		Subject:      pkix.Name{CommonName: cn},
-		SerialNumber: big.NewInt(1),
+		SerialNumber: big.NewInt(1000 + serialCounter),
 		NotBefore:    time.Now().Add(-time.Hour),
 		NotAfter:     time.Now().Add(24 * time.Hour),
 		KeyUsage:     x509.KeyUsageDigitalSignature | x509.KeyUsageKeyEncipherment,
@@ -65,9 +94,9 @@ func selfSigned(cn string, k crypto.Signer) (*x509.Certificate, error) {
 }
 
 func newClients(thorough bool) (*clients, error) {
-	cl := &clients{keys: map[string]*clientKey{}, csrs: map[string][]byte{}}
+	cl := &clients{keys: map[string]*clientKey{}, csrs: map[string][]byte{}, extra: map[string]*clientKey{}}
 	add := func(name string, k crypto.Signer) error {
-		cert, err := selfSigned("c15-client.example", k)
+		cert, err := selfSigned("c15-client-"+name+".example", k)
 		if err != nil {
 			return err
 		}
@@ -111,6 +140,25 @@ func newClients(thorough bool) (*clients, error) {
 	if cl.other, err = selfSigned("somebody-else.example", ko); err != nil {
 		return nil, err
 	}
+	cl.extra["o1"] = &clientKey{"o1", ko, cl.other}
+	ko2, err := rsa.GenerateKey(rand.Reader, 2048)
+	if err != nil {
+		return nil, err
+	}
+	c2, err := selfSigned("third-party.example", ko2)
+	if err != nil {
+		return nil, err
+	}
+	cl.extra["o2"] = &clientKey{"o2", ko2, c2}
+	koe, err := ecdsa.GenerateKey(elliptic.P256(), rand.Reader)
+	if err != nil {
+		return nil, err
+	}
+	ce, err := selfSigned("ec-party.example", koe)
+	if err != nil {
+		return nil, err
+	}
+	cl.extra["oe"] = &clientKey{"oe", koe, ce}
 	return cl, nil
 }
 
@@ -278,8 +326,20 @@ func buildRaw(k *Case, cl *clients, ca *testCA, env []byte) ([]byte, error) {
 	case "empty":
 		attrs = append(attrs, pkcs7.Attribute{Type: oidFailInfo, Value: smallscep.FailInfo("")})
 	}
+	// certificates listed ahead of the signer certificate …
+	for _, n := range k.Pre {
+		if e := cl.extra[n]; e != nil {
+			sd.AddCertificate(e.cert)
+		}
+	}
 	if err := sd.AddSigner(ck.cert, ck.key, pkcs7.SignerInfoConfig{ExtraSignedAttributes: attrs}); err != nil {
 		return nil, err
+	}
+	// … and after it
+	for _, n := range k.Post {
+		if e := cl.extra[n]; e != nil {
+			sd.AddCertificate(e.cert)
+		}
 	}
 	return sd.Finish()
 }
@@ -344,6 +404,8 @@ type fields struct {
 	Degen  string // CACerts(envelope): "!" on error else number of certificates
 	SignOK bool   // the CSR is one the authority signs (key length / type)
 	EncOK  bool   // the reply can be encrypted to the request's certificates (RSA)
+	Certs  []*x509.Certificate // msg.P7.Certificates
+	Signer int                 // position of the signer certificate in Certs, -1 if none
 	Nonce  []byte
 	CSRKey any
 }
@@ -360,6 +422,7 @@ func attrBytes(p7 *pkcs7.PKCS7, oid asn1.ObjectIdentifier) string {
 }
 
 func analyze(raw []byte, ca *testCA) (f fields) {
+	f.Signer = -1
 	p7, err := pkcs7.Parse(raw)
 	if err != nil {
 		return
@@ -393,9 +456,15 @@ func analyze(raw []byte, ca *testCA) (f fields) {
 		f.FI = "ok"
 	}
 	f.EncOK = true
-	for _, crt := range p7.Certificates {
+	f.Certs = p7.Certificates
+	f.Signer = -1
+	sc := p7.GetOnlySigner()
+	for i, crt := range p7.Certificates {
 		if _, ok := crt.PublicKey.(*rsa.PublicKey); !ok {
 			f.EncOK = false
+		}
+		if sc != nil && f.Signer < 0 && crt.Equal(sc) {
+			f.Signer = i
 		}
 	}
 	p7c, err := pkcs7.Parse(p7.Content)
@@ -492,7 +561,43 @@ func modelLine(f fields, ps *provSpec, httpOK bool) string {
 	if degen == "" {
 		degen = "!"
 	}
-	fmt.Fprintf(&b, " env=%s cp=%s degen=%s signok=%s encok=%s", env, c.X(f.CP), degen, okStr(f.SignOK), okStr(f.EncOK))
-	fmt.Fprintf(&b, " secret=%s hooks=%s", c.X(ps.Secret), hookField(ps, f.CP))
+	certs := ""
+	for _, crt := range f.Certs {
+		if _, ok := crt.PublicKey.(*rsa.PublicKey); ok {
+			certs += "r"
+		} else {
+			certs += "n"
+		}
+	}
+	if certs == "" {
+		certs = "-"
+	}
+	signer := "!"
+	if f.Signer >= 0 {
+		signer = fmt.Sprint(f.Signer)
+	}
+	fmt.Fprintf(&b, " env=%s cp=%s degen=%s signok=%s certs=%s signer=%s", env, c.X(f.CP), degen, okStr(f.SignOK), certs, signer)
+	fmt.Fprintf(&b, " secret=%s hooks=%s inits=%d", c.X(ps.Secret), hookField(ps, f.CP), ps.PreInits+1)
 	return b.String()
+}
+
+// countRecipients reads the number of RecipientInfos of an EnvelopedData ContentInfo (-1 if the
+// bytes are not one).
+func countRecipients(der []byte) int {
+	var ci struct {
+		ContentType asn1.ObjectIdentifier
+		Content     asn1.RawValue `asn1:"explicit,optional,tag:0"`
+	}
+	if _, err := asn1.Unmarshal(der, &ci); err != nil {
+		return -1
+	}
+	var ed struct {
+		Version        int
+		RecipientInfos []asn1.RawValue `asn1:"set"`
+		Rest           asn1.RawValue
+	}
+	if _, err := asn1.Unmarshal(ci.Content.Bytes, &ed); err != nil {
+		return -1
+	}
+	return len(ed.RecipientInfos)
 }
